@@ -1,5 +1,6 @@
 // vsim world: op registry, step loop, client bookkeeping shared by all ops_*.cc
 #pragma once
+#include <set>
 #include "core.hh"
 #include "model.hh"
 
@@ -44,7 +45,7 @@ void register_cli_ops();
 Step cli_step(Rng& r, int client, long rep, long cmd, const std::string& lit_a, const std::string& lit_b);
 
 // text store shared by all modules (simfs)
-struct Blob { std::string bytes; std::string kind; std::string model_lit; int owner = 0; };
+struct Blob { std::string bytes; std::string kind; std::string model_lit; int owner = 0; bool has_starts = false; std::set<std::string> api_starts; /* word automata: names of GetStartStates() at dump time */ };
 std::vector<Blob>& blobs();
 
 } // namespace vsim
